@@ -252,6 +252,11 @@ func runRaceStress(k *toks, o *out) {
 						method = "INVITE"
 					}
 					id := fmt.Sprintf("u-%d-%d-%d", li, s, m)
+					// what real clients also send: NAT keep-alives and datagrams that do not decode; they are not
+					// requests (nothing is counted), the traffic around them must be unaffected
+					if m%7 == 3 {
+						c.WriteToUDP([][]byte{[]byte("\r\n\r\n"), {}, []byte("OPTIONS sip:x SIP/2.0\r\nVia: SIP/2.0/UDP h\r\n\r\n"), []byte("\r\n")}[(m/7)%4], dst)
+					}
 					if _, err := c.WriteToUDP(rsRequest(method, "UDP", src, 6000, id), dst); err != nil {
 						note("udp-write-fail")
 						continue
